@@ -152,6 +152,8 @@ def run_case(case, ctx):
         else:
             cbs.append(trainrec.recorder_callback(log, cb_id=pos, stop_at=(c["at"] if c["inj"] == pos else None)))
         ids.append(pos)
+    if c["lam"]:
+        cbs.append(LambdaCallback())  # all-default LambdaCallback: must be inert
     kw = {} if bases is None else {"input_bases": bases}
     tags = {"state": kind}
     before = monitors.params_digest(st)
